@@ -757,7 +757,10 @@ Proof.
     assert (Hsize : w_size wf = d_next_off d2).
     { unfold wf, w4. rewrite Hok. cbn [orb]. cbn. lia. }
     split; [rewrite Hwf_buf; exact Hp|]. split; [exact Hsize|].
-    unfold contents. rewrite Hwf_buf, Hp, (live_some _ _ _ Hb5 Hl5), Hsize, Hk5, Hk, take_known_same, Hd5, Hd.
+    unfold contents. rewrite Hwf_buf, Hp, (live_some _ _ _ Hb5 Hl5), Hsize.
+    assert (Hg : (0 <=? d_next_off d2) && (d_next_off d2 <=? b_size b5) = true).
+    { apply andb_true_intro. split; apply Z.leb_le; lia. }
+    rewrite Hg, Hk5, Hk, take_known_same, Hd5, Hd.
     rewrite rev_append_rev, app_nil_r. apply rev_involutive. }
   intros Ha. split.
   - rewrite Hwf_buf, Hpbuf, Ha, orb_false_r. destruct (st_ok st); reflexivity.
@@ -1140,3 +1143,31 @@ Definition hist_512 : list hop :=
   [HCall true (map (fun _ => chunk 448) (seq 0 8) ++ [chunk 512; PByte 1])].
 Lemma exact_bufsize_chunk_overruns : verdict (run cfg_tj hist_512) = (true, [], Some (BadOverrun 1 4096)).
 Proof. vm_compute. reflexivity. Qed.
+
+(* ------------------------------------------------------------- ICC bytes *)
+Require Import ZifyBool.
+Ltac Zify.zify_post_hook ::= Z.div_mod_to_equations.
+
+Lemma icc_consts : icc_max_data = 65519 /\ forall l, icc_marker_bytes l = 18 + l.
+Proof. split; [reflexivity|]. intros l. unfold icc_marker_bytes. change icc_overhead_len with 14. lia. Qed.
+
+Lemma icc_loop_spec : forall fuel rem acc, 0 <= rem <= Z.of_nat fuel * 65519 ->
+  icc_loop fuel rem acc = acc + rem + 18 * ((rem + 65518) / 65519).
+Proof.
+  destruct icc_consts as (Hm & Hb).
+  induction fuel as [|f IH]; intros rem acc H.
+  - cbn [icc_loop]. assert (rem = 0) by lia. subst rem. change ((0 + 65518) / 65519) with 0. lia.
+  - cbn [icc_loop]. destruct (rem <=? 0) eqn:E.
+    + apply Z.leb_le in E. assert (rem = 0) by lia. subst rem. change ((0 + 65518) / 65519) with 0. lia.
+    + apply Z.leb_gt in E. rewrite Hm, Hb. rewrite IH by lia.
+      destruct (Z.le_gt_cases rem 65519) as [Hle|Hgt].
+      * rewrite Z.min_l by lia. replace (rem - rem) with 0 by lia. lia.
+      * rewrite Z.min_r by lia. lia.
+Qed.
+
+(* (5) an ICC profile of len bytes costs exactly len + 18 * ceil(len / 65519) bytes *)
+Theorem icc_extra_all len : 0 <= len -> icc_bytes len = len + 18 * ((len + 65518) / 65519).
+Proof.
+  intros H. unfold icc_bytes. destruct icc_consts as (Hm & _). rewrite Hm.
+  rewrite icc_loop_spec; [lia|]. rewrite Z2Nat.id by lia. lia.
+Qed.
